@@ -63,6 +63,7 @@ def powM : M → M → Except UnitErr M
 
 def absM : M → M
   | .num q f => .num (if q < 0 then -q else q) f
+  | .weird => .anynum          -- abs of a complex number is a real number
   | m => m
 
 def floorM (up : Bool) : M → Except UnitErr M
